@@ -289,10 +289,22 @@ def _leibniz(fc, L: RuleResult):
             gate_ok = gate == "%s.%stensor" % (fc.bctx, lim) and isinstance(d.orelse, ast.Constant) and d.orelse.value is None
             sign = expr_sign(d.body, bdefs)
             # the integrand evaluated at the right limit
-            evals = [c for c in ast.walk(d.body) if isinstance(c, ast.Call) and isinstance(c.func, ast.Name)
+            # the term together with the definitions of the local names it reads (`fxl = fcn(xl, ..).reshape(-1)` on its own line)
+            closure = []
+            seen_n = set()
+            work = [d.body]
+            while work:
+                x_ = work.pop()
+                closure.append(x_)
+                for n_ in ast.walk(x_):
+                    if isinstance(n_, ast.Name) and isinstance(n_.ctx, ast.Load) and n_.id not in seen_n and n_.id not in (lim, cot):
+                        seen_n.add(n_.id)
+                        work.extend(v_ for v_ in bdefs.get(n_.id, []) if isinstance(v_, ast.AST))
+            evals = [c for x_ in closure for c in ast.walk(x_) if isinstance(c, ast.Call) and isinstance(c.func, ast.Name)
                      and c.func.id in _fcn_names(fc) and c.args]
-            at = evals[0].args[0].id if evals and isinstance(evals[0].args[0], ast.Name) else None
-            uses_cot = cot in names_loaded(d.body)
+            ats = {c.args[0].id if isinstance(c.args[0], ast.Name) else None for c in evals}
+            at = next(iter(ats)) if len(ats) == 1 else (None if not ats else "/".join(sorted(str(a_) for a_ in ats)))
+            uses_cot = any(cot in names_loaded(x_) for x_ in closure)
             what = "grad_%s = %s%s(%s,..).grad_ys if %s else None" % (lim, "-" if sign < 0 else "+", "f", at, gate)
             if gate_ok and sign == want and at == lim and uses_cot:
                 L.ok(bw.fq, what)
